@@ -19,7 +19,8 @@ RULE = ("density: both Earth models x radii {0, every shell boundary and its two
         "float32/0-d arrays, mixed and 2-d lists) compared with the float64 scalar evaluation; slant depth: endpoints at depth 0..3 km with random x,y, "
         "directions over the whole sphere plus injected vertical / horizontal / tangential / up-going / zero "
         "directions, steps 5..5000 m (bounded so a chord has at most ~1e5 nodes), exact-multiple and "
-        "shorter-than-one-step chords; a case is non-trivial when the chord enters the Earth (result > 0); "
+        "shorter-than-one-step chords; call histories on long-lived objects (PREM, a second PREM, the module-level `earth`, "
+        "CoreMantleCrustModel) asking the same chord of several models, repeatedly and with other steps; a case is non-trivial when the chord enters the Earth (result > 0); "
         "distinct = distinct (model, op, arguments)")
 LEVEL_TEXT = ("theorems over R for any shell table with sorted bounds (partition, zero outside, scalar=array), "
               "positivity of every extracted polynomial on its shell, chord/sphere geometry (exit point on the "
@@ -460,6 +461,42 @@ def check_slant_inputs(run, name, earth, ep, d, step, cls):
                        what="slant_depth of integer-valued arguments given as %s differs from the float64 call" % cls)
 
 
+def column_ok(name, ep, d, step, T):
+    """is T within the trapezoid bound of the reference integral for this model?"""
+    I, V, dist = ref_column(name, ep, d)
+    if dist == 0:
+        return T == 0, I, 0.0
+    n = n_nodes(dist, step)
+    if n < 2:
+        bound = I * (1 + 1e-9) + 1e-6
+    else:
+        bound = 100 * (dist / (n - 1)) * V / 2 * (1 + 1e-6) + 1e-9 * I + 1e-6
+    return abs(T - I) <= bound, I, bound
+
+
+def check_state_reuse(run, history):
+    """a HISTORY of calls on model objects that live across the calls (both Earth models, the module-level `earth`,
+    a second PREM instance; same chord asked of several models, repeated, with another step): every single answer must
+    be the line integral of ITS model's profile (within the discretisation bound) and must equal what a freshly
+    constructed object of that class returns for a chord shifted by nothing - state from earlier calls must not leak.
+    history = [(object key, endpoint, direction, step)], object keys: prem, cmc, prem2, module"""
+    import pyrex.earth_model as em
+    objs = {"prem": em.PREM(), "cmc": em.CoreMantleCrustModel(), "prem2": em.PREM(), "module": em.earth}
+    model_of = {"prem": "prem", "prem2": "prem", "module": "prem", "cmc": "cmc"}
+    for k, (key, ep, d, step) in enumerate(history):
+        T, err = slant(objs[key], ep, d, step)
+        ok, I, bound = (False, None, None) if err else column_ok(model_of[key], ep, d, step, T)
+        dens = float(objs[key].density(objs[key].earth_radius - 1.0))
+        dens_ok = fw.close(dens, ref_density(model_of[key], REF[model_of[key]]["R"] - 1.0), 1e-12, 0.0)
+        if not (ok and dens_ok):
+            run.fail_input("state-reuse", {"model": model_of[key], "history": [[a, list(b), list(c), e] for a, b, c, e in history[:k + 1]]},
+                           observed=err or {"call": k, "object": key, "slant_depth": T, "crust_density": dens},
+                           expected={"integral_of_this_model": I, "allowed_error": bound},
+                           what="after earlier calls on this or another Earth-model object, slant_depth/density no longer "
+                                "equal the profile of the model that was asked")
+            return
+
+
 def rotz(v, a):
     c, s = math.cos(a), math.sin(a)
     return [c * v[0] - s * v[1], s * v[0] + c * v[1], v[2]]
@@ -499,6 +536,26 @@ def search(run, deep):
     ms = models()
     rng = run.rng
     mult = 12 if deep else 1
+    # --- state kept across calls: the same chords asked of several long-lived objects, in varying order
+    for rep in range(6 * mult):
+        chords = []
+        for ep, d, step, kind in slant_cases(run, 6):
+            if kind in ("zero", "up"):
+                continue
+            chords.append((ep, d, max(step, 50.0)))
+        hist = []
+        for ep, d, step in chords:
+            keys = rng.sample(["prem", "cmc", "prem2", "module"], 4)
+            step = bound_step(REF["cmc"]["R"], ep, d, step, 5e4)
+            for key in keys[:rng.randint(2, 4)]:
+                hist.append((key, ep, d, step))
+            if rng.random() < 0.5:
+                hist.append((keys[0], ep, d, step))            # asked again
+            if rng.random() < 0.5:
+                hist.append((keys[1], ep, d, step * 2))        # same chord, other step
+        run.case(("oracle-state-reuse", len(hist), tuple(h[0] for h in hist)))
+        run.count("state_reuse_calls", len(hist))
+        check_state_reuse(run, hist)
     for name, earth in ms.items():
         check_density(run, name, earth, radii_cases(run, name, earth))
         run.case(("oracle-density", name))
@@ -552,6 +609,8 @@ def replay(run, data):
     k = data.get("kind")
     if k == "density":
         check_density(run, name, earth, [i["r"]])
+    elif k == "state-reuse":
+        check_state_reuse(run, [(a, b, c, e) for a, b, c, e in i["history"]])
     elif k == "density-input":
         check_density_inputs(run, name, earth, i["radii"], i["class"])
     elif k == "slant-input":
